@@ -363,6 +363,37 @@ func extract(repo string, it Item) (sourceTxt, lean string, err error) {
 			return "", "", fmt.Errorf("case %d:%d not found", n, m)
 		}
 		e = cases[n].List[m]
+	case "casetext":
+		n, err := idx(1)
+		if err != nil {
+			return "", "", err
+		}
+		m, err := idx(2)
+		if err != nil {
+			return "", "", err
+		}
+		if n >= len(cases) || m >= len(cases[n].List) {
+			return "", "", fmt.Errorf("case %d:%d not found", n, m)
+		}
+		t := norm(src(cases[n].List[m]))
+		return t, leanString(t), nil
+	case "calltext":
+		// calltext:PREFIX:N — source text of the N-th call whose function text starts with PREFIX
+		n, err := idx(2)
+		if err != nil {
+			return "", "", err
+		}
+		k := 0
+		for _, c := range calls {
+			if strings.HasPrefix(norm(src(c.Fun)), parts[1]) {
+				if k == n {
+					t := norm(src(c))
+					return t, leanString(t), nil
+				}
+				k++
+			}
+		}
+		return "", "", fmt.Errorf("call with prefix %s #%d not found", parts[1], n)
 	case "iftext":
 		// whole if statement (init; cond {body}) as a normalised source string
 		n, err := idx(1)
